@@ -1,6 +1,7 @@
-"""C01 — ordered subsets partition the data; every subset is used once per iteration."""
+"""C01 — detector pairs and sinogram bins form a consistent partition."""
 import os
 import vlib
+import gen_gate
 
 PROP = "C01"
 
@@ -13,15 +14,18 @@ def main(tier, replay):
                 tier = l.split("tier=")[1].split()[0]
     chk = vlib.Check(PROP, tier, level="proof")
     audit = vlib.lean_gate(chk, PROP)
+    tie_t = gen_gate.gate(chk, kernels=["det1", "det2", "det2vt", "ax_pos_num"])
     stats = vlib.run_differential(chk, PROP, "c01_geometry", tier)
     vlib.standard_coverage(chk, stats,
-        "real DataSymmetriesForBins_PET_CartesianGrid / find_basic_vs_nums_in_subset / subsets_are_approximately_balanced / "
-        "IterativeReconstruction::get_subset_num (rand() scripted) on generated geometries: views 1..24 + seeded sample up to 96 (thorough: all 1..96), "
-        "all 8 requested symmetry-flag combinations, TOF and non-TOF, every (view,segment): basic/related/count; subsets n (all n<=6, divisors, sample; thorough: all n) "
-        "x every subset; balanced flag; schedules. One line per operation, compared with the Lean model's answer; distinct = distinct (op) lines; "
-        "the oracle counts (view,segment) multiplicities over all subsets on the implementation.")
-    chk.assumptions += ["rand() is a parameter (scripted)", "view range is 0..V-1 (always the case for STIR projection data)",
-                        "32-bit overflow not modelled"]
+        "real ProjDataInfoCylindricalNoArcCorr (and BlocksOnCylindrical) built by construct_proj_data_info for 3 fixed + 45 generated small scanners "
+        "(thorough: 300; N even, 1..9 rings, span 1/odd/even, max_delta, view mashing = every divisor, TOF mashing) + predefined scanners: "
+        "ALL (view,tang)->detectors, ALL ordered detector pairs (strided for N>128 in quick), ALL ring pairs and ALL (segment,axial) lists, a seeded sample of full "
+        "detector-position pairs/bins (pairs<->bin, lists, counts, uncompressed inverse), and histories set_num_views/clone after the lazy tables were built; "
+        "every answer compared with the Lean model (incl. the decidable WFb hypothesis vs the implementation's ring-pair consistency); "
+        "oracle: exchange symmetry, per-(view,tang) multiplicity, ring-pair partition, bin list exactness on the implementation.")
+    chk.coverage["tie_T_translator"] = tie_t
+    chk.assumptions += ["float computation of m_offset / ax_pos_num_offset replaced by exact integer arithmetic",
+                        "32-bit overflow not modelled", "Generic geometry with a crystal map file not exercised"]
     if audit:
         vlib.proof_coverage(chk, audit, "cd lean && lake build StirVerif stirdriver && lake env lean ../build/out/Audit_C01.lean")
     return chk.finish()
